@@ -95,11 +95,17 @@ func mkSchnorr(curve string, x *big.Int, sess []byte) (*proofInst, error) {
 	}
 	in.roundtrip = func() (bool, error) {
 		// the wire form is (alpha.x, alpha.y, t) as minimal big-endian bytes
-		a, err := crypto.NewECPoint(ec, new(big.Int).SetBytes(pf.Alpha.X().Bytes()), new(big.Int).SetBytes(pf.Alpha.Y().Bytes()))
+		// the receiver has its own handle of the curve (tss.Edwards() builds a new value per call) and its own copy of the statement
+		ec2 := ecOf(curve)
+		a, err := crypto.NewECPoint(ec2, new(big.Int).SetBytes(pf.Alpha.X().Bytes()), new(big.Int).SetBytes(pf.Alpha.Y().Bytes()))
 		if err != nil {
 			return false, err
 		}
-		return (&schnorr.ZKProof{Alpha: a, T: new(big.Int).SetBytes(pf.T.Bytes())}).Verify(sess, X), nil
+		X2, err := crypto.NewECPoint(ecOf(curve), new(big.Int).SetBytes(X.X().Bytes()), new(big.Int).SetBytes(X.Y().Bytes()))
+		if err != nil {
+			return false, err
+		}
+		return (&schnorr.ZKProof{Alpha: a, T: new(big.Int).SetBytes(pf.T.Bytes())}).Verify(sess, X2), nil
 	}
 	in.shifts = map[string]func(d *big.Int) []*big.Int{
 		"alpha+dG,t+d": func(d *big.Int) []*big.Int {
@@ -154,11 +160,19 @@ func mkSchnorrV(curve string, s, l *big.Int, sess []byte) (*proofInst, error) {
 		return (&schnorr.ZKVProof{Alpha: a, T: c[2], U: c[3]}).Verify(ss, v, r)
 	}
 	in.roundtrip = func() (bool, error) {
-		a, err := crypto.NewECPoint(ec, new(big.Int).SetBytes(pf.Alpha.X().Bytes()), new(big.Int).SetBytes(pf.Alpha.Y().Bytes()))
+		a, err := crypto.NewECPoint(ecOf(curve), new(big.Int).SetBytes(pf.Alpha.X().Bytes()), new(big.Int).SetBytes(pf.Alpha.Y().Bytes()))
 		if err != nil {
 			return false, err
 		}
-		return (&schnorr.ZKVProof{Alpha: a, T: new(big.Int).SetBytes(pf.T.Bytes()), U: new(big.Int).SetBytes(pf.U.Bytes())}).Verify(sess, V, R), nil
+		V2, err := crypto.NewECPoint(ecOf(curve), new(big.Int).SetBytes(V.X().Bytes()), new(big.Int).SetBytes(V.Y().Bytes()))
+		if err != nil {
+			return false, err
+		}
+		R2, err := crypto.NewECPoint(ecOf(curve), new(big.Int).SetBytes(R.X().Bytes()), new(big.Int).SetBytes(R.Y().Bytes()))
+		if err != nil {
+			return false, err
+		}
+		return (&schnorr.ZKVProof{Alpha: a, T: new(big.Int).SetBytes(pf.T.Bytes()), U: new(big.Int).SetBytes(pf.U.Bytes())}).Verify(sess, V2, R2), nil
 	}
 	in.shifts = map[string]func(d *big.Int) []*big.Int{
 		"alpha+dR,t+d": func(d *big.Int) []*big.Int {
